@@ -7,6 +7,8 @@ import (
 	"net/url"
 	"regexp"
 	"text/template"
+	"unicode"
+	"unicode/utf16"
 	"unicode/utf8"
 
 	"github.com/robfig/soy/data"
@@ -127,7 +129,28 @@ func directiveEscapeUri(value data.Value, _ []data.Value) data.Value {
 }
 
 func directiveEscapeJsString(value data.Value, _ []data.Value) data.Value {
-	return data.String(template.JSEscapeString(value.String()))
+	return data.String(jsEscapeString(value.String()))
+}
+
+// jsEscapeString returns the JavaScript-escaped form of str. It is
+// template.JSEscapeString, except that an unprintable character beyond the
+// basic plane is written as a surrogate pair: JSEscapeString writes \uXXXXX
+// for it, which JavaScript reads as \uXXXX followed by a digit.
+func jsEscapeString(str string) string {
+	var buf bytes.Buffer
+	var last = 0
+	for i := 0; i < len(str); {
+		var r, size = utf8.DecodeRuneInString(str[i:])
+		if r > 0xFFFF && !unicode.IsPrint(r) {
+			buf.WriteString(template.JSEscapeString(str[last:i]))
+			var r1, r2 = utf16.EncodeRune(r)
+			fmt.Fprintf(&buf, `\u%04X\u%04X`, r1, r2)
+			last = i + size
+		}
+		i += size
+	}
+	buf.WriteString(template.JSEscapeString(str[last:]))
+	return buf.String()
 }
 
 func directiveJson(value data.Value, _ []data.Value) data.Value {
